@@ -758,8 +758,39 @@ fn regs_diff(a: &[u16; 14], b: &[u16; 14], allow: &[usize]) -> Option<String> {
     None
 }
 
+/// A read that hands over text without a line end is only right at the very end of the input:
+/// if any further input is read after it, a line was cut in two (the rest of it was served as
+/// "the next line").
+pub fn split_line_read(h: &History) -> Option<(Who, String)> {
+    let mut open: Option<(Who, String)> = None;
+    for e in &h.events {
+        if let Event::Line { who, res } = e {
+            match res {
+                LineRes::Ok(t) => {
+                    if let Some(o) = open.take() {
+                        return Some(o);
+                    }
+                    if !t.ends_with('\n') {
+                        open = Some((*who, t.chars().take(40).collect()));
+                    }
+                }
+                // a failed read takes its partial line with it; what follows is a fresh read
+                LineRes::Err(_) => {}
+                LineRes::Eof => {}
+            }
+        }
+    }
+    None
+}
+
 pub fn check_c18(_case: &Case, h: &History) -> Vec<Violation> {
     let mut v = Vec::new();
+    if let Some((Who::Service, t)) = split_line_read(h) {
+        v.push(Violation::new(
+            "C18:svc_line_split",
+            format!("a service took {:?}... without reaching the end of the line, and the rest of that line was read as the next one", t),
+        ));
+    }
     let (_, segs) = segments(h);
     let mut mt = MemTrack::new();
     for (k, s) in segs.iter().enumerate() {
@@ -1099,6 +1130,12 @@ pub fn check_c20(case: &Case, h: &History, alts: &[History]) -> Vec<Violation> {
     let n_code = gen.map(|g| g.idx_line.len());
     let lines = src_lines(&case.scn);
 
+    if let Some((Who::Prompt, t)) = split_line_read(h) {
+        v.push(Violation::new(
+            "C20:prompt_line_split",
+            format!("the prompt took {:?}... without reaching the end of the line, and the rest of that line was read as the next command", t),
+        ));
+    }
     // ---- liveness / spin / abort
     let mut seen_prompt_eof: Option<usize> = None;
     let mut probes_after_eof = 0;
